@@ -145,7 +145,7 @@ def run(ctx):
                     nraw += 1
                     v = core(n["v"])
                     if isinstance(v, DerV):
-                        rep.ob("C04.writer", key + "|raw|tbs", n["fn"] == SIGN_DER, "the TBS is embedded raw only by sign_der", found=n["fn"], sp=n.get("sp"))
+                        rep.ob("C04.writer", key + "|raw|tbs", n["fn"] == SIGN_DER or common.known_owners(crate, n["fn"]) == {SIGN_DER}, "the TBS is embedded raw only by sign_der", found=n["fn"], sp=n.get("sp"))
                     else:
                         pl = places(n["v"])
                         allowed = [{"self.custom_extensions[]"}, {"self.custom_extensions[].content"}, {"attrs[].values"}]
